@@ -4,9 +4,15 @@ use std::ops::{Deref, DerefMut};
 use std::panic::{AssertUnwindSafe, catch_unwind, resume_unwind};
 use std::pin::Pin;
 use std::ptr::NonNull;
+#[cfg(folo_verif)]
+use std::sync::Arc;
+#[cfg(not(folo_verif))]
 use std::sync::{Arc, Mutex};
 use std::{fmt, mem, ptr};
 
+
+#[cfg(folo_verif)]
+use crate::verif_sync::Mutex;
 use crate::{NEVER_POISONED, Pooled, RawOpaquePoolThreadSafe, RawPooledMut};
 
 // Note that while this is a thread-safe handle, we do not require `T: Send` because
